@@ -194,7 +194,10 @@ macro_rules! build_num {
         let spec = $spec;
         let b = base(&spec.kind);
         let ins: Vec<_> = spec.ins.iter().filter_map(|n| <$t as Payload>::slot(rig, n)).collect();
-        if ins.len() != spec.ins.len() {
+        if matches!(b, "if" | "ifelse") {
+            // the first input is the boolean condition
+            build_generic::<$t>(rig, spec)
+        } else if ins.len() != spec.ins.len() {
             None
         } else {
             match b {
@@ -643,6 +646,11 @@ pub fn execute(plan: &Plan, ctx: &mut Ctx) {
                 });
             }
             ctx.cell(&spec.kind, &parts);
+            {
+                // category-tuple coverage (the C02 quantifier): kind x arity x outcome category per input
+                let cats: Vec<i64> = ins.iter().map(cat_code).collect();
+                ctx.cell(&format!("C02.cat:{}:{}", spec.kind, ins.len()), &cats);
+            }
             ctx.sig((ni as u64) << 32 | (parts.iter().fold(0u64, |h, p| h.wrapping_mul(7).wrapping_add(*p as u64)) & 0xffff_ffff));
             if ins.iter().any(|o| !o.is_some()) {
                 ctx.nontrivial = true;
@@ -813,7 +821,40 @@ fn random_node(rng: &mut Rng, kind: &str, idx: usize, specs: &[NodeSpec], leaf_b
     NodeSpec { kind: kind.to_string(), ins, clock: rng.below(NC as u64) as usize, param }
 }
 
+/// Number of enumerated runs at the start of every C02 batch: for each of the three n-ary
+/// kinds, every assignment of {E1, E2, absent, present} to N = 1..5 inputs.
+pub const C02_ENUM: u64 = 3 * (4 + 16 + 64 + 256 + 1024);
+
+fn gen_c02_enumerated(prop: &str, rng: &mut Rng, seed: u64, run: u64) -> Plan {
+    let mut plan = Plan::new("comb", prop, seed, run);
+    let per_kind = C02_ENUM / 3;
+    let kind = ["sum.f", "prod.f", "latest.f"][(run / per_kind) as usize];
+    let mut k = run % per_kind;
+    let mut n = 1usize;
+    while k >= 1u64 << (2 * n) {
+        k -= 1u64 << (2 * n);
+        n += 1;
+    }
+    let ins: Vec<String> = (0..n).map(|i| format!("f{}", i)).collect();
+    plan.sets("nodes", &nodes_text(&[NodeSpec { kind: kind.into(), ins, clock: 0, param: 0 }]));
+    plan.sets("equiv", "");
+    let base_t = rng.range(-1_000_000_000, 1_000_000_000);
+    for i in 0..n {
+        match (k >> (2 * i)) & 3 {
+            0 => plan.push("LFE", &[i as i64, 1]),
+            1 => plan.push("LFE", &[i as i64, 2]),
+            2 => plan.push("LFN", &[i as i64]),
+            _ => plan.push("LF", &[i as i64, base_t + rng.range(-2, 2), fb(rng.moderate_f32())]),
+        }
+    }
+    plan.push("RR", &[]);
+    plan
+}
+
 pub fn gen_c02(prop: &str, tier: Tier, rng: &mut Rng, seed: u64, run: u64) -> Plan {
+    if run < C02_ENUM && prop == "C02" {
+        return gen_c02_enumerated(prop, rng, seed, run);
+    }
     let mut plan = Plan::new("comb", prop, seed, run);
     let mut specs: Vec<NodeSpec> = Vec::new();
     let mut equiv: Vec<String> = Vec::new();
